@@ -69,7 +69,7 @@ class SymUniform:
     def _le(self, t):
         ctx = self.ctx
         # float thresholds such as 1/(c-1) stand for the rational they approximate (real abstraction)
-        t = core.num(t) if not isinstance(t, float) else core.num(RealFraction(t).limit_denominator(1000))
+        t = core.num(t) if not isinstance(t, float) else core.num(RealFraction(t).limit_denominator(10**9))
         if ctx.truth(core.le(t, self.lo)):
             return False
         if ctx.truth(core.ge(t, self.hi)):
